@@ -99,3 +99,29 @@ class ModelRows:
          name="count_models.order")
 def models_in_order(m):
     return count_models(Block(ModelRows(m)))
+
+
+# ---------------------------------------------------------------- one file's rows never depend on a file read before
+# An mmCIF that omits an optional column (here the insertion-code column: the parser's lookup fails) followed, in the same
+# process, by one that carries it: the second file's record has its own insertion code, alternate id and charge.
+def cif_second_file(serial, name, resname, resseq, x, y, z, occ, b):
+    first = Rows({"group_PDB": "ATOM", "id": "1", "label_atom_id": "CA", "label_comp_id": "GLY", "label_asym_id": "A",
+                  "auth_seq_id": "1", "Cartn_x": "1.000", "Cartn_y": "2.000", "Cartn_z": "3.000",
+                  "occupancy": "1.00", "B_iso_or_equiv": "0.00", "type_symbol": "C"})
+    atom_site_line(first, 0)
+    rows = Rows({"group_PDB": "ATOM", "id": fmt(serial, "d"), "label_atom_id": name, "label_alt_id": "B",
+                 "label_comp_id": resname, "label_asym_id": "A", "auth_seq_id": fmt(resseq, "d"),
+                 "pdbx_PDB_ins_code": "C", "Cartn_x": fmt(x, ".3f"), "Cartn_y": fmt(y, ".3f"), "Cartn_z": fmt(z, ".3f"),
+                 "occupancy": fmt(occ, ".2f"), "B_iso_or_equiv": fmt(b, ".2f"), "type_symbol": "C",
+                 "pdbx_formal_charge": "1"})
+    return ATOM(atom_site_line(rows, 0))
+
+
+harness("C10",
+        params={"serial": Int, "name": NameTok(1, 4), "resname": NameTok(1, 3), "resseq": Int, "x": Real, "y": Real, "z": Real,
+                "occ": Real, "b": Real},
+        requires=[FITS, NAMES_OK],
+        ensures=["result.serial == serial and result.res_seq == resseq",
+                 "result.ins_code == 'C' and result.alt_loc == 'B' and result.charge == '1+' and result.element == 'C'",
+                 "result.x == float(fmt(x, '.3f')) and result.y == float(fmt(y, '.3f')) and result.z == float(fmt(z, '.3f'))"],
+        name="atom_site_line.second_file", budget=60000)(cif_second_file)
